@@ -112,8 +112,94 @@ fn release_races(rng: &mut Rng, rounds: usize, sink: &mut Sink) -> u64 {
     evals
 }
 
+/// Two persistent workers released together by a barrier: both clone the *same* `&LeanString`, whose
+/// buffer has exactly one handle at that moment, so the two increments of the count race. After
+/// every round the count must be 3 (the original and the two clones), and after dropping all three
+/// nothing may remain allocated.
+fn borrowed_clone_races(rng: &mut Rng, rounds: usize, sink: &mut Sink) -> u64 {
+    use std::sync::Mutex;
+    let start = Arc::new(Barrier::new(3));
+    let done = Arc::new(Barrier::new(3));
+    let inputs: Vec<Arc<Mutex<Option<Arc<LeanString>>>>> = (0..2).map(|_| Arc::new(Mutex::new(None))).collect();
+    let outputs: Vec<Arc<Mutex<Option<LeanString>>>> = (0..2).map(|_| Arc::new(Mutex::new(None))).collect();
+    let stop = Arc::new(std::sync::atomic::AtomicBool::new(false));
+    let go = Arc::new(std::sync::atomic::AtomicUsize::new(0));
+    let mut workers = vec![];
+    for w in 0..2 {
+        let (start, done, inp, outp, stop, go) = (start.clone(), done.clone(), inputs[w].clone(), outputs[w].clone(), stop.clone(), go.clone());
+        workers.push(std::thread::spawn(move || {
+            loop {
+                start.wait();
+                if stop.load(std::sync::atomic::Ordering::SeqCst) {
+                    break;
+                }
+                let item = inp.lock().unwrap().take();
+                if let Some(shared) = item {
+                    // a spin gate narrows the window between the two clones
+                    go.fetch_add(1, std::sync::atomic::Ordering::SeqCst);
+                    while go.load(std::sync::atomic::Ordering::SeqCst) < 2 {
+                        std::hint::spin_loop();
+                    }
+                    let c = (*shared).clone();
+                    *outp.lock().unwrap() = Some(c);
+                }
+                done.wait();
+            }
+        }));
+    }
+    let mut evals = 0u64;
+    for round in 0..rounds {
+        let text = gn::text_of_len(rng, 40 + round % 7);
+        let shared = Arc::new(LeanString::from(text.as_str()));
+        go.store(0, std::sync::atomic::Ordering::SeqCst);
+        *inputs[0].lock().unwrap() = Some(shared.clone());
+        *inputs[1].lock().unwrap() = Some(shared.clone());
+        start.wait();
+        done.wait();
+        evals += 1;
+        let c0 = outputs[0].lock().unwrap().take();
+        let c1 = outputs[1].lock().unwrap().take();
+        let rc = lean_string::verif_hooks::ref_count(&shared);
+        if rc != Some(3) {
+            sink.fail(&["C04", "C03"], format!("borrowed-clone race, round {round}: two threads cloned one &LeanString (count 1) at the same time; three handles exist but the count is {rc:?}"));
+        }
+        let mut c0 = c0;
+        if let Some(c) = c0.as_mut() {
+            // copy-on-write through one clone must leave the others reading the original text
+            let _ = c.remove(0);
+        }
+        if shared.as_str() != text || c1.as_ref().map(|c| c.as_str() == text) != Some(true) {
+            sink.fail(&["C04", "C02"], format!("borrowed-clone race, round {round}: editing one clone changed what another handle reads"));
+        }
+        drop(c0);
+        drop(c1);
+        drop(shared);
+        let (live, errs) = crate::shadow::with(|s| {
+            let l = s.live_blocks();
+            s.reset();
+            (l, std::mem::take(&mut s.errors))
+        });
+        if live != 0 {
+            sink.fail(&["C04", "C03"], format!("borrowed-clone race, round {round}: {live} block(s) never released"));
+        }
+        for e in errs {
+            sink.fail(&["C04", "C03"], format!("borrowed-clone race, round {round}: shadow heap: {e}"));
+        }
+        if sink.ex.failures.len() > 5 {
+            break;
+        }
+    }
+    stop.store(true, std::sync::atomic::Ordering::SeqCst);
+    start.wait();
+    for w in workers {
+        let _ = w.join();
+    }
+    evals
+}
+
 pub fn run(rng: &mut Rng, n: usize, sink: &mut Sink) {
     let mut evals = release_races(rng, n * 150, sink);
+    evals += borrowed_clone_races(rng, n * 50, sink);
     for it in 0..n {
         let tlen = 17 + rng.below(80);
         let text = gn::text_of_len(rng, tlen);
@@ -170,5 +256,6 @@ pub fn run(rng: &mut Rng, n: usize, sink: &mut Sink) {
     sink.oracle.evaluations += evals;
     sink.oracle.distinct_nontrivial += evals;
     sink.oracle.samples.push("two persistent workers released by a barrier, each holding one of the last two handles on a buffer and releasing it simultaneously (drop, push, remove, shrink_to_fit, clone_from); shadow heap audited after every round".into());
+    sink.oracle.samples.push("two persistent workers cloning the same &LeanString (one handle, count 1) at the same moment through a spin gate; the count must be 3 afterwards, copy-on-write through one clone must not disturb the others, shadow heap audited after every round".into());
     sink.oracle.samples.push("2-3 OS threads released by a barrier, each owning a clone of one heap buffer and borrowing an Arc<LeanString>, running 2-4 random operations (push, push_str, pop, remove, insert, truncate, retain, clear, reserve, shrink_to, clone, read); each thread checked against its own String; shadow heap audited after every iteration".into());
 }
